@@ -175,7 +175,7 @@ Definition drawn_row (f : field) : list item :=
   [(3, vis_token (f_vis f)); (3, xml_clean (f_name f)); (3, xml_clean (f_type f))].
 
 Definition drawn_column (c : column) : list item :=
-  [(0, xml_clean (c_name c)); (0, xml_clean (c_type c)); (0, constraint_abbr c)].
+  [(0, xml_clean (c_name c)); (0, xml_clean (c_type c)); (0, xml_clean (constraint_abbr c))].
 
 Definition drawn_label (t : text) : list item :=
   match t_lang t with
@@ -206,14 +206,14 @@ Definition drawn_conn (k : conn) : list item :=
   (if nonempty (t_label (k_text k)) then drawn_label (k_text k) else [])
   ++ drawn_arrow (k_src k) ++ drawn_arrow (k_dst k).
 
-(* RenderLegend draws nothing for a legend without entries *)
+(* RenderLegend draws nothing for a legend without entries; labels go through svg.EscapeText *)
 Definition drawn_legend (g : legend) : list item :=
   match g_shapes g, g_conns g with
   | [], [] => []
   | _, _ =>
-    (1, if nonempty (g_label g) then g_label g else s_Legend)
-    :: map (fun l => (0, l)) (filter nonempty (g_shapes g))
-    ++ map (fun l => (0, l)) (filter nonempty (g_conns g))
+    (1, xml_clean (if nonempty (g_label g) then g_label g else s_Legend))
+    :: map (fun l => (0, xml_clean l)) (filter nonempty (g_shapes g))
+    ++ map (fun l => (0, xml_clean l)) (filter nonempty (g_conns g))
   end.
 
 (* d2svg.Render of one board *)
@@ -300,11 +300,12 @@ Definition has_blank_line (d : diagram) : bool := existsb blank_line (rendered_s
 (* a rune that is not an XML character somewhere: drawn as U+FFFD *)
 Definition all_strings (d : diagram) : list str :=
   match d with
-  | Diagram sh cn _ _ _ _ =>
+  | Diagram sh cn lg _ _ _ =>
       flat_map (fun s => [t_label (s_text s); s_tooltip s; s_pretty s]
                          ++ flat_map (fun f => [f_name f; f_type f]) (s_fields s ++ s_methods s)
-                         ++ flat_map (fun c => [c_name c; c_type c]) (s_columns s)) sh
+                         ++ flat_map (fun c => [c_name c; c_type c; constraint_abbr c]) (s_columns s)) sh
       ++ flat_map (fun k => [t_label (k_text k); opt_str (k_src k); opt_str (k_dst k)]) cn
+      ++ match lg with Some g => g_label g :: g_shapes g ++ g_conns g | None => [] end
   end.
 Definition has_invalid_xml (d : diagram) : bool :=
   existsb (fun s => existsb (fun c => negb (xml_char c)) s) (all_strings d).
